@@ -71,6 +71,19 @@ def duplicates_key_rule(an: Analysis, rep, f=None, mapattr=None):
                             f"self.{attr}, which the rank function consults to decide an override, is computed from the raw entries (==/hash) and not through self.{keyattr}, the key the "
                             f"encoder looks values up by: entries that are == but have different keys (1 / True) get needless overrides, entries that are not == but share a key "
                             f"(two NaN constants) get none and are merged on re-encoding")
+    # the consulted set is only written where it is computed: an entry added to it from anywhere else is pinned without being a duplicate
+    for attr in sorted(consulted):
+        computed_in = {m.qual for m in f.cls.methods.values()
+                       if any(isinstance(n, ast.Assign) and any(isinstance(t, ast.Attribute) and t.attr == attr for t in n.targets) for n in ast.walk(m.node))}
+        for m in f.cls.methods.values():
+            s_ = m.params[0] if m.params else None
+            for n in ast.walk(m.node):
+                if isinstance(n, ast.Call) and isinstance(n.func, ast.Attribute) and n.func.attr in ("add", "update", "append", "extend", "__setitem__", "setdefault") \
+                        and isinstance(n.func.value, ast.Attribute) and n.func.value.attr == attr and isinstance(n.func.value.value, ast.Name) and n.func.value.value.id == s_ \
+                        and m.qual not in computed_in:
+                    rep.add("R09.2", f"{m.qual}::self.{attr} only holds computed duplicates", False, loc(m.module, n),
+                            f"`{norm_src(n)}` puts an index into self.{attr} that was not found to be duplicated: the rank function then reports an override for an entry that sits "
+                            f"exactly at its first-use rank (e.g. a docstring an instruction also loads) - a redundant override")
     if keyattr and dupsites:
         for m, c in dupsites:
             fnode = c.func
@@ -88,6 +101,26 @@ def _is_rank_call(node, rank_name: str) -> bool:
 
 def self_attrs(node, self_):
     return {n.attr for n in ast.walk(node) if isinstance(n, ast.Attribute) and isinstance(n.value, ast.Name) and n.value.id == self_}
+
+
+def _enumerated_sequence(an, g, gen):
+    """For `for name, rank in <X>`: the expression whose enumeration yields the ranks - directly `enumerate(E)`, or `.items()` of a dict a
+    package function builds as `{name: i for i, name in enumerate(E)}`.  Returns (function, E, name of the Args parameter in that function)."""
+    itx = gen.iter
+    if isinstance(itx, ast.Call) and isinstance(itx.func, ast.Name) and itx.func.id == "enumerate" and itx.args:
+        base = next((x.id for x in ast.walk(itx.args[0]) if isinstance(x, ast.Name) and x.id in g.params), None)
+        return (g, itx.args[0], base) if base else None
+    if isinstance(itx, ast.Call) and isinstance(itx.func, ast.Attribute) and itx.func.attr == "items" and isinstance(itx.func.value, ast.Call) \
+            and isinstance(itx.func.value.func, ast.Name):
+        r = an.prog.resolve_global(g.module, itx.func.value.func.id, g)
+        if r and r[0] == "func" and len(r[1].params) == 1:
+            h = r[1]
+            rets = [x for x in ast.walk(h.node) if isinstance(x, ast.Return) and x.value is not None]
+            if len(rets) == 1 and isinstance(rets[0].value, ast.DictComp):
+                inner = rets[0].value.generators[0].iter
+                if isinstance(inner, ast.Call) and isinstance(inner.func, ast.Name) and inner.func.id == "enumerate" and inner.args:
+                    return (h, inner.args[0], h.params[0])
+    return None
 
 
 def seed_rules(an: Analysis, rep):
@@ -138,9 +171,19 @@ def seed_rules(an: Analysis, rep):
     # varnames seeds: the decoder pre-marks as many leading slots as the encoder pre-assigns (same multiset of Args fields)
     from . import c04
     dec_fields = enc_fields = None
+    dec_order = enc_order = None
     dec_where = loc(f.module, f.node)
     for g2 in an.closure("from_code"):
         for n in ast.walk(g2.node):
+            # second form: {<table>.index(name): rank for name, rank in <enumeration of the parameters>}: the rank ORDER matters
+            if isinstance(n, ast.DictComp) and isinstance(n.key, ast.Call) and isinstance(n.key.func, ast.Attribute) and n.key.func.attr == "index" and isinstance(n.value, ast.Name):
+                seq = _enumerated_sequence(an, g2, n.generators[0])
+                if seq is not None:
+                    sf, sexpr, sparam = seq
+                    dec_order = [fl for fl, k, o in c04.segments(an, sf, sexpr, sparam)]
+                    dec_fields = sorted(dec_order)
+                    dec_where = loc(g2.module, n)
+                continue
             if isinstance(n, ast.DictComp) and isinstance(n.key, ast.Name) and isinstance(n.value, ast.Name) and n.key.id == n.value.id:
                 itx = n.generators[0].iter
                 if isinstance(itx, ast.Call) and isinstance(itx.func, ast.Name) and itx.func.id == "range" and len(itx.args) == 1:
@@ -193,13 +236,52 @@ def seed_rules(an: Analysis, rep):
                     if isinstance(a, ast.Attribute) and a.attr == "args":
                         base = a
                 if base is not None:
-                    enc_fields = sorted(c04._order_from_args_expr(an, g2, src, base))
+                    enc_order = list(c04._order_from_args_expr(an, g2, src, base))
+                    enc_fields = sorted(enc_order)
     if dec_fields is None or enc_fields is None:
         raise AnalysisError("parameter seeding sites not recognised on both sides")
+    if dec_order is not None and enc_order is not None and dec_fields == enc_fields and dec_order != enc_order:
+        rep.add("R09.2", "parameter seeds rank the parameters in the order the encoder lays them out", False, dec_where,
+                f"the decoder ranks the parameters in the order {dec_order} (signature order), the encoder pre-assigns the local slots in the order {enc_order} (co_varnames layout: "
+                f"keyword-only names come before *args): for a function with *args and a keyword-only parameter the ranks differ from the slots, so those parameters decode with a "
+                f"redundant position override")
     rep.add("R09.2", "parameter seeds cover the same slots on both sides", dec_fields == enc_fields, dec_where,
             f"decoder pre-marks len({dec_fields}) leading local slots, the encoder pre-assigns exactly those" if dec_fields == enc_fields
             else f"decoder pre-marks the slots of {dec_fields}, encoder pre-assigns {enc_fields}")
 
+
+
+def r096(an: Analysis, rep):
+    """The decoder pins every entry whose key occurs twice in a table BECAUSE the encoder finds entries by key and would merge them. That
+    justification holds only if the encoder registers every entry it stores - pinned ones included - in its key -> index map."""
+    from . import c03
+    rep.rule("R09.6", "the encoder registers every stored entry for look-up by key (what justifies pinning duplicates)", 1)
+    ci = c03.table_class(an)
+    imap = c03._index_map_attr(ci)
+    # the key -> index map: the other dict attribute stored in __setitem__
+    sm = ci.methods["__setitem__"]
+    self0 = sm.params[0]
+    kmaps = {t.value.attr for n in ast.walk(sm.node) if isinstance(n, ast.Assign) for t in n.targets
+             if isinstance(t, ast.Subscript) and isinstance(t.value, ast.Attribute) and isinstance(t.value.value, ast.Name) and t.value.value.id == self0 and t.value.attr != imap}
+    if len(kmaps) != 1:
+        raise AnalysisError(f"{sm.qual}: key -> index map not recognised ({sorted(kmaps)})")
+    kmap = kmaps.pop()
+    n = 0
+    for m in ci.methods.values():
+        s0 = m.params[0] if m.params else None
+        st_i = [x for x in ast.walk(m.node) if isinstance(x, ast.Assign) and any(isinstance(t, ast.Subscript) and isinstance(t.value, ast.Attribute) and t.value.attr == imap
+                                                                                  and isinstance(t.value.value, ast.Name) and t.value.value.id == s0 for t in x.targets)]
+        if not st_i:
+            continue
+        n += 1
+        st_k = [x for x in ast.walk(m.node) if isinstance(x, ast.Assign) and any(isinstance(t, ast.Subscript) and isinstance(t.value, ast.Attribute) and t.value.attr == kmap
+                                                                                  and isinstance(t.value.value, ast.Name) and t.value.value.id == s0 for t in x.targets)]
+        rep.add("R09.6", f"{m.qual}::stores into {imap} are registered in {kmap}", bool(st_k), loc(m.module, st_i[0]),
+                f"`{norm_src(st_k[0])[:60]}` next to it" if st_k else
+                f"`{norm_src(st_i[0])[:60]}` stores an entry without registering it in {kmap}: a later use of an equal-key value is no longer merged with it, so the overrides the "
+                f"decoder puts on duplicated entries (because the encoder 'would merge them') can be removed without changing the re-encoding - they are redundant")
+    if n == 0:
+        raise AnalysisError(f"{ci.qual}: no store into {imap} found")
 
 
 def unreferenced_rules(an: Analysis, rep):
@@ -396,6 +478,7 @@ def run(an: Analysis, rep):
                     rep.add("R09.5", f"{g2.qual}::replace(..., _index_override=...)", False, loc(g2.module, n),
                             f"`{norm_src(n)}` sets a position override after the rank function has decided that none is needed: the decoded data carries redundant overrides")
     rep.run(unreferenced_rules, an, rep)
+    rep.run(r096, an, rep)
     # R09.4: each member of the AdditionalArg union is produced from the same table as the instruction operand of that class
     tg = an.tg
     cd = an.prog.cls("code_data::CodeData")
